@@ -93,7 +93,8 @@ type runState struct {
 
 // violate records a violation; in non-default frame modes the key says so.
 func (r *runState) violate(class, key, format string, args ...interface{}) bool {
-	if r.mode != wireTypeCompress {
+	// the frame mode matters to what runs through SecretConnection.Read/Write
+	if r.mode != wireTypeCompress && (class == "stream" || class == "integrity" || class == "auth" || class == "handshake") {
 		key += "/mode=" + modeName(r.mode)
 	}
 	if r.c.Violate(class, key, format, args...) {
